@@ -276,8 +276,24 @@ impl<D: DataMut> MatZnxToMut for MatZnx<D> {
     }
 }
 
-impl<D: Data> MatZnx<D> {
+impl<D: DataRef> MatZnx<D> {
+    /// Constructs a `MatZnx` from raw parts.
+    ///
+    /// # Panics
+    ///
+    /// Panics if the buffer holds fewer than `n * rows * cols_in * cols_out * size` `i64` words or is not
+    /// aligned for `i64`.
     pub fn from_data(data: D, n: usize, rows: usize, cols_in: usize, cols_out: usize, size: usize) -> Self {
+        super::znx_base::assert_from_data_fits(
+            "MatZnx",
+            data.as_ref(),
+            n,
+            rows.checked_mul(cols_in)
+                .and_then(|x| x.checked_mul(cols_out))
+                .and_then(|x| x.checked_mul(size)),
+            size_of::<i64>(),
+            align_of::<i64>(),
+        );
         Self {
             data,
             n,
